@@ -34,13 +34,13 @@ TIERS = {
     "quick": {"shards": 4, "cases": 3000, "timeout": 300},
     "thorough": {"shards": 16, "cases": 9000, "timeout": 3000},
 }
-FLOORS = {"quick": {"component_builds_inside_one_long_bump": 1500,
+FLOORS = {"quick": {"parents_whose_oldest_commits_pin_nothing": 300, "component_builds_inside_one_long_bump": 1500,
                     "distinct_nontrivial": 1200, "included_at_entries_observed": 3000,
                     "component_build_x_parent_branch_decisions": 5000, "dependency_graphs": 1000,
                     "cyclic_graphs_rejected": 300, "parent_builds_reported_without_own_commit": 100,
                     "components_with_an_unreadable_first_version_location": 100,
                     "scenarios_with_refs_read_from_git_directories": 100},
-          "thorough": {"component_builds_inside_one_long_bump": 1500,
+          "thorough": {"parents_whose_oldest_commits_pin_nothing": 1200, "component_builds_inside_one_long_bump": 1500,
                        "distinct_nontrivial": 25000, "included_at_entries_observed": 100000,
                        "component_build_x_parent_branch_decisions": 200000, "dependency_graphs": 40000,
                        "cyclic_graphs_rejected": 10000, "parent_builds_reported_without_own_commit": 4000,
@@ -133,6 +133,8 @@ def gen_parent(rng, versions, versions2=None, comp=None, comp2=None, step=60):
     pins2 = {}
     base = 1_600_000_000 + 1000
     ids = list(range(1, n + 1))
+    # the oldest commits of some parents are older than the dependency: they have no file that pins anything
+    unpinned = rng.randint(1, max(1, n // 3)) if rng.random() < 0.25 and not versions2 else 0
     for cid in ids:
         earlier = ids[:cid - 1]
         if not earlier:
@@ -142,8 +144,14 @@ def gen_parent(rng, versions, versions2=None, comp=None, comp2=None, step=60):
         else:
             ps = [rng.choice(earlier[-3:])]
         msg = "BUG-7 p%d" % cid if rng.random() < 0.2 else "misc %d" % cid
-        lo = max([pins[p] for p in ps], default=0)
+        lo = max([pins[p] for p in ps if p in pins], default=0)
         pin = min(len(versions) - 1, lo + rng.choice([0, 0, 1, 1, 2, 3]))
+        if cid <= unpinned:
+            ts = base + cid * 60
+            if step > 60:
+                ts = max([commits[c].committed_date for c in ids[:cid - 1]] + [base]) + rng.randint(60, step)
+            commits[cid] = mg.Commit("par", cid, [commits[p] for p in ps], msg, ts, {"README": "no dependencies yet"})
+            continue
         pins[cid] = pin
         v = versions[pin][1]
         depends = {"comp": "%d.%d.%d" % v}
@@ -188,7 +196,7 @@ def grow(comp, par, versions, pins, how, second=None):
     versions.append((h, (major, minor, bn)))
     branch = how["branch"]
     hp = par.branches[branch]
-    depends = json.loads(par.commits[hp].tree.files["DEPENDS"].data.decode())
+    depends = json.loads(par.commits[hp].tree.files["DEPENDS"].data.decode()) if "DEPENDS" in par.commits[hp].tree.files else {}
     depends["comp"] = "%d.%d.%d" % (major, minor, bn)
     cid = max(par.commits) + 1
     ts = max(par.commits[hp].committed_date, comp.commits[h].committed_date) + 60
@@ -354,6 +362,8 @@ def judge_component(ctx, data, cname, comp, par, versions, pins, case):
                 ctx.count("component_build_x_parent_branch_decisions")
 
                 def contains(x):
+                    if x not in pins:
+                        return False        # (a parent commit from before the dependency existed)
                     cv = versions[pins[x]][0]
                     if (rc in side_owned) != (cv in side_owned):
                         return False
@@ -398,7 +408,7 @@ def judge_component(ctx, data, cname, comp, par, versions, pins, case):
     ctx.count("included_at_entries_observed", n_entries)
     for mech, detail in problems[:5]:
         ctx.violation(mech, detail, case)
-    pinned_versions = {pins[x] for e in exp.values() for x in e['builds']}
+    pinned_versions = {pins[x] for e in exp.values() for x in e['builds'] if x in pins}
     if len(pinned_versions) >= 2 and n_entries:
         ctx.nontrivial(sig_of(case))
 
@@ -576,6 +586,8 @@ def run_shard(ctx):
             if not versions2:
                 versions2 = None
         par, pins, pins2 = gen_parent(rng, versions, versions2, comp, comp2 if versions2 else None, step)
+        if len(pins) < len(par.commits):
+            ctx.count("parents_whose_oldest_commits_pin_nothing")
         if versions2:
             second = (comp2, versions2, pins2)
         rev = rng.random() < 0.5
